@@ -272,6 +272,12 @@ pub fn model_request_line(line: &[u8]) -> Result<(u8, String, u8), EK> {
 /// Whole-stream reference parser. `limit` = payload limit L, `window` = line limit
 /// (1024 in the shipped build).
 pub fn model_stream(s: &[u8], limit: usize, window: usize) -> ModelOut {
+    model_stream_lim(s, &|_| limit, window)
+}
+
+/// As `model_stream`, with a payload limit that may change while the stream is received:
+/// `limit_at(e)` = the limit in force when the header block ending at offset `e` completes.
+pub fn model_stream_lim(s: &[u8], limit_at: &dyn Fn(usize) -> usize, window: usize) -> ModelOut {
     let mut out = ModelOut {
         events: Vec::new(),
         unspecified: false,
@@ -354,6 +360,7 @@ pub fn model_stream(s: &[u8], limit: usize, window: usize) -> ModelOut {
             out.events.push((pos, MEvent::Request(req)));
             continue;
         }
+        let limit = limit_at(pos);
         if n > limit {
             out.events.push((pos, MEvent::Error(EK::SizeLimit(limit, n))));
             break;
